@@ -44,9 +44,13 @@ ChainRebuildsUnion(prog, i, top) ==
   ELSE \/ \E j \in DOMAIN prog[i].own : HasRebuiltUnion(prog[i].own[j].t)
        \/ \E j \in DOMAIN prog[i].own : HasVarAlt(prog[i].own[j].t) /\ ChainWrapsArg(prog, top)
        \/ ChainRebuildsUnion(prog, prog[i].base, top)
+RECURSIVE ChainHasVarAlt(_, _)
+ChainHasVarAlt(prog, i) == IF i = 0 THEN FALSE
+                           ELSE (\E j \in DOMAIN prog[i].own : HasVarAlt(prog[i].own[j].t)) \/ ChainHasVarAlt(prog, prog[i].base)
 ViaTypingUnion(e) ==
   /\ (\E j \in DOMAIN e.args : HasUnion(e.args[j])) \/ ChainSubstitutesUnion(e.prog, e.i)
-  /\ ChainRebuildsUnion(e.prog, e.i, e.i)
+  /\ \/ ChainRebuildsUnion(e.prog, e.i, e.i)
+     \/ (\E j \in DOMAIN e.args : e.args[j].k \in {"list", "ann"}) /\ ChainHasVarAlt(e.prog, e.i)    \* Cls[List[Union[..]]] into Union[T, None]
 Named(e, c) == IF ViaTypingUnion(e) THEN c \o "-via-rebuilt-typing-union" ELSE c
 
 SigFails(e) ==
